@@ -564,6 +564,25 @@ func runC11R7(c *eng.Ctx, r *eng.RuleCtx) {
 			}
 			return true
 		})
+		if name == "Add" {
+			// the scheduled function sends the tick on every activation
+			addFunc := 0
+			for _, l := range f.Lits {
+				if l.ArgOf == nil || eng.CalleeOf(info, l.ArgOf) == nil || eng.CalleeOf(info, l.ArgOf).Name() != "AddFunc" {
+					continue
+				}
+				addFunc++
+				lg := p.GraphOfLit(l)
+				sends := func(gn *eng.GNode) bool {
+					st, isS := gn.Node.(*ast.SendStmt)
+					return isS && eng.IsField(info, st.Chan, ch)
+				}
+				r.Check(lg.MustPassToExit(eng.Query{FromEntry: true}, sends) == nil, f.Key+" every activation sends the tick", l.Lit.Pos(), "the scheduled function always sends on ScheduleCh", "the scheduled function can return without sending the tick (a debounce, a filter): a legitimate activation of the crontab produces no task")
+			}
+			if addFunc == 0 {
+				r.Unknown(f.Key+" scheduled function", f.Decl.Pos(), "no function literal passed to cron.AddFunc")
+			}
+		}
 		r.Check(n > 0 && bad == 0, f.Key+" keys", pos, fmt.Sprintf("%d uses of Entries / ScheduleCh, all with the entry's Crontab", n),
 			fmt.Sprintf("%d of %d keys of scheduleManager.Entries (or values sent as the tick) are not the entry's Crontab string itself: the manager and the bindings controllers no longer agree on what identifies a schedule, a binding whose crontab is spelled differently gets no tasks", bad, n))
 	}
